@@ -130,7 +130,19 @@ func buildSexpFun(
 	sfun := gen.env.MakeFunction(gen.funcname, nargs, varargs, nil, orig)
 	sfun.SetFormalSymbols(argsyms)
 	if len(name) > 0 {
-		gen.knownFunctions[env.MakeSymbol(name).number] = sfun
+		// known by this name only while its own body is compiled: a nested
+		// definition of the same name must not replace it for the rest of
+		// this body (the self tail call takes its lazy positions from here).
+		key := env.MakeSymbol(name).number
+		prev, hadPrev := gen.knownFunctions[key]
+		gen.knownFunctions[key] = sfun
+		defer func() {
+			if hadPrev {
+				gen.knownFunctions[key] = prev
+			} else {
+				delete(gen.knownFunctions, key)
+			}
+		}()
 	}
 
 	//VPrintf("\n in buildSexpFun(): DumpFunction just before %v args go onto stack\n", len(argsyms))
